@@ -28,6 +28,7 @@ open Gd Gd.Run
 
 
 
+
 def allEntries : List (String × (List String → String)) := List.flatten [
   readerEntries,
   valveEntries,
